@@ -67,10 +67,13 @@ AddStep(s) ==
 \* function settings exist in a Result style and an Any style ("r" / "a"); which one is used must not matter
 \* a constructor option for a scalar parameter can be handed over as a flyt.NodeOption or as a plain func(*BaseNode)
 \* value ("f": options kept in a []func(*flyt.BaseNode), a struct field, a helper's return value); again it must not matter
-StyleOK(k, s) == IF s.param \in {"prep", "exec", "post"} /\ (k = "node" \/ s.param = "exec") THEN s.sty \in {"r", "a"}
+\* ("ar": an any-based prep function whose value is itself a flyt.Result - a value like any other)
+StyleOK(k, s) == IF s.param = "prep" /\ k = "node" THEN s.sty \in {"r", "a", "ar"}
+                 ELSE IF s.param \in {"prep", "exec", "post"} /\ (k = "node" \/ s.param = "exec") THEN s.sty \in {"r", "a"}
                  ELSE IF s.param \in {"retries", "wait", "conc", "mode"} /\ s.form = "opt" THEN s.sty \in {"r", "f"}
+                 ELSE IF s.param = "fb" THEN s.sty \in {"r", "n"}       \* "n": the fallback is kept in a named function type
                  ELSE s.sty = "r"
-CfgNext == \E p \in Params : \E f \in Forms : \E v \in {0, 1, 2, 3} : \E y \in {"r", "a", "f"} :
+CfgNext == \E p \in Params : \E f \in Forms : \E v \in {0, 1, 2, 3} : \E y \in {"r", "a", "f", "n", "ar"} :
               StyleOK(kind, [param |-> p, form |-> f, sty |-> y]) /\ AddStep([param |-> p, form |-> f, val |-> v, sty |-> y])
 CfgSpec == CfgInit /\ [][CfgNext]_cvars
 
@@ -111,6 +114,12 @@ C19_Failing(c, h) ==
        \cup (IF p.retries = gexp.retries /\ p.wait = gexp.wait /\ p.conc = gexp.conc /\ p.mode = gexp.mode THEN {} ELSE {"getters"})
        \cup (IF p.prepfn = exp.prep /\ p.postfn = exp.post /\ (execObservable => p.execfn = exp.exec)
                 /\ ((c.kind = "node" /\ execObservable) => p.fbfn = exp.fb) THEN {} ELSE {"functionsInstalled"})
+       \* what post is handed as the prep value does not depend on the form in which the prep function was installed: a
+       \* string for the probe's ordinary prep functions, the flyt.Result itself when an any-based prep returns one
+       \cup (LET ps == SelectSeq(Effective(all), LAMBDA s : s.param = "prep") IN
+             IF c.kind = "node" /\ exp.prep # 0 /\ exp.post # 0 /\ "prepkind" \in DOMAIN p
+                /\ p.prepkind # (IF ps[Len(ps)].sty = "ar" THEN "result" ELSE "string")
+             THEN {"prepValueAsInstalled"} ELSE {})
        \* behaviour of the probe runs: attempts on an always-failing exec, concurrency high-water mark, stop/continue
        \cup (IF execObservable /\ p.attempts # exp.retries THEN {"behaviourRetries"} ELSE {})
        \cup (IF c.kind = "batch" /\ execObservable /\ p.hwm # (IF exp.conc > 0 THEN exp.conc ELSE 1) THEN {"behaviourConcurrency"} ELSE {})
